@@ -1055,3 +1055,31 @@ def replay(payload):
     v = judge_legacy(sc) if "legacy" in sc else judge_twins(sc) if "twins" in sc else judge_session(sc) if "second" in sc else judge_freeze(sc) if "frozen" in sc \
         else judge_frame(sc)
     return {"violates": bool(v), "detail": v}
+
+
+def pregen(ctx):
+    """tie (T): re-translate Node.is_trainable (getter and setter) / is_trained_offline / is_trained_online / initialize_buffers /
+    clean_buffers / get_buffer / partial_fit / fit and _partial_backward_default (node.py) of the tree under test into coq/gen/Gen_fit.v (translator vlib/py2coq_fit.py, a subclass of the C08
+    translator; vocabulary coq/base/FitPrelude.v); proofs/Gen_fit_eq.v then proves them equal to clean_buffers / init_buffers /
+    partial_backward / partial_fit / fit HEAD / set_trainable of model/TrainSem.v (C11_generated_*).  Returns None or the error text; on rejection a stub
+    that does not compile replaces the file (never a stale model)."""
+    import os
+    import traceback
+    from vlib import py2coq_fit
+    path = os.path.join(core.COQ, "gen", "Gen_fit.v")
+    os.makedirs(os.path.dirname(path), exist_ok=True)
+    err = None
+    try:
+        text = py2coq_fit.emit(core.REPO)
+    except py2coq_fit.Reject as ex:
+        err = "translation rejected: %s" % ex
+    except Exception:
+        err = "translator exception: " + traceback.format_exc()[-1500:]
+    if err is not None:
+        text = "(* GENERATED: translation of the offline-training skeleton FAILED -- %s *)\nDefinition translation_failed : True := 0.\n" % (
+            err.replace("*)", "* )").replace("(*", "( *"))
+    old = open(path).read() if os.path.exists(path) else None
+    if old != text:               # keep the mtime (and the compiled cone) when nothing changed
+        with open(path, "w") as f:
+            f.write(text)
+    return None if err is None else "offline-training skeleton (Node.fit / partial_fit / clean_buffers / initialize_buffers): %s" % err
